@@ -208,7 +208,7 @@ def check(tier, seed, replay=None):
     # the same expression with a --set binding and written out, in every option position (two runs, same bytes)
     truns = 0
     if not replay:
-        trecs, tdescs, truns = EL.twin_records(jvh, rnd, 42 if quick else 1400, len(recs))
+        trecs, tdescs, truns = EL.twin_records(jvh, rnd, (2 * len(EL.TWINS) + 1) if quick else 1400, len(recs))
         recs += trecs
         descs += tdescs
         for d in tdescs:
